@@ -114,7 +114,7 @@ def detect(i, tier, props):
             return i, {'error': 'patch does not apply'}
         for p in props or [m['property']]:
             t = time.time()
-            rc, out = sh('./check %s --tier %s' % (p, tier), cwd=HERE, env={'REPO_DIR': wt, 'VERIF_NO_EVIDENCE': '1'})
+            rc, out = sh('./check %s --tier %s' % (p, tier), cwd=HERE, env={'REPO_DIR': wt, 'VERIF_NO_EVIDENCE': '1', 'VERIF_WATCHDOG_S': os.environ.get('VERIF_WATCHDOG_S', '300')})
             viol = [l for l in out.splitlines() if l.startswith('VIOLATION')]
             if viol and p == m['property']:
                 # keep the first replay artefact: `./check --replay seeded/<id>/replay.json` fails on the mutated tree
